@@ -4,6 +4,8 @@ import Mathlib.Algebra.BigOperators.Group.List.Basic
 import Mathlib.Tactic.Linarith
 import Mathlib.Algebra.Order.Field.Basic
 import Mathlib.Algebra.Order.Field.Rat
+import OtelVerif.Lemmas.SeriesStore
+import OtelVerif.Model.HistogramStore
 /-! # C07 — histogram points are exact summaries of the recorded values
 
 The declarative side is written from the property text:
@@ -583,5 +585,44 @@ theorem isDouble_range {q : Rat} (h : IsDouble q) : -Gen.dblMax ≤ q ∧ q ≤ 
             have : (2 : Nat) ^ 53 ≤ (2 ^ 53 - 1) * 2 ^ 971 := by decide +kernel
             omega
           exact_mod_cast this
+
+/-! ## through the storage: collection cycles and readers
+
+The series storage (`Otel.Series`, the model behind C08) is generic in the aggregation.  Instantiated with the
+histogram aggregation, its conservation theorem says that — for every history of `Record`s and `Collect`s, any number
+of delta and cumulative readers, any cardinality limit — the points handed to a reader together account for exactly
+the values recorded in that reader's interval (delta) or so far (cumulative): their `count`s add up to the number of
+those values and their `sum`s to the sum of those values.  Per series the point is then `hist` of its values by
+`mergeL_hom` / `hist_perm` (the storage only ever applies `aggregate` and `merge`). -/
+
+open Otel.Series in
+/-- `count_` is an additive measure of the aggregation -/
+def countMeasure (k : Kind) (cfg : Option Config) : Measure (histAgg k cfg) Nat :=
+  { μ := fun p => p.count, w := fun _ => 1, new := rfl, add := fun _ _ => rfl, merge := fun _ _ => rfl }
+
+open Otel.Series in
+/-- `sum_` is an additive measure of the aggregation -/
+def sumMeasure (k : Kind) (cfg : Option Config) : Measure (histAgg k cfg) Rat :=
+  { μ := fun p => p.sum, w := fun v => v, new := rfl, add := fun _ _ => rfl, merge := fun _ _ => rfl }
+
+open Otel.Series in
+theorem storage_conserves_count {K : Type} [DecidableEq K] (k : Kind) (cfg : Option Config) (ovf : K) (limit : Nat)
+    (temps : List Temporality) (iter : List (K × Point) → List (K × Point)) (hiter : ∀ l, (iter l).Perm l)
+    (ops : List (Op K Rat)) (hops : ∀ r, Op.collect r ∈ ops → r < temps.length) :
+    let c : Cfg K Point Rat := { ag := histAgg k cfg, ovf := ovf, limit := limit, temps := temps, iter := iter }
+    ((Store.run c (Store.init c) ops).2.map fun o => (o.1, outTotal (fun p : Point => p.count) o.2)) =
+      specTotals c (fun _ => 1) (fun _ => 0) 0 ops := by
+  intro c
+  exact run_totals c (countMeasure k cfg) hiter ops (Store.init c) (fun _ => 0) 0 (sinv_init c (countMeasure k cfg)) hops
+
+open Otel.Series in
+theorem storage_conserves_sum {K : Type} [DecidableEq K] (k : Kind) (cfg : Option Config) (ovf : K) (limit : Nat)
+    (temps : List Temporality) (iter : List (K × Point) → List (K × Point)) (hiter : ∀ l, (iter l).Perm l)
+    (ops : List (Op K Rat)) (hops : ∀ r, Op.collect r ∈ ops → r < temps.length) :
+    let c : Cfg K Point Rat := { ag := histAgg k cfg, ovf := ovf, limit := limit, temps := temps, iter := iter }
+    ((Store.run c (Store.init c) ops).2.map fun o => (o.1, outTotal (fun p : Point => p.sum) o.2)) =
+      specTotals c (fun v => v) (fun _ => 0) 0 ops := by
+  intro c
+  exact run_totals c (sumMeasure k cfg) hiter ops (Store.init c) (fun _ => 0) 0 (sinv_init c (sumMeasure k cfg)) hops
 
 end Otel.C07
